@@ -29,45 +29,60 @@ def strList : List Y → Option (List Str)
   | .str s :: t => (strList t).map (s :: ·)
   | _ :: _ => none
 
+/-- `_load_full_match_options`: both values are read, then both are checked -/
+def cfgFlags (d : List (Y × Y)) : M (Bool × Bool) := do
+  let m ← boolOpt d "mnemonics-full-match"
+  let o ← boolOpt d "operands-full-match"
+  pure (m, o)
+
+/-- `_load_assembly_style` (anything but the string `intel` means att; a bad value is only logged) -/
+def cfgStyle (d : List (Y × Y)) : Style :=
+  match dictGet d "style" with
+  | some (.str st) => if st = "intel".toList then .intel else .att
+  | _ => .att
+
+/-- `_load_valid_addr_range` -/
+def cfgRange (d : List (Y × Y)) : M (Option AddrRange) :=
+  match dictGet d "valid_addr_range" with
+  | none => pure none
+  | some v =>
+    if !truthy v then pure none
+    else match v with
+      | .dict r =>
+        (match dictGet r "min", dictGet r "max" with
+          | some (.str lo), some (.str hi) => do
+            let a ← hexVal lo
+            let b ← hexVal hi
+            pure (some ⟨a, b⟩)
+          | _, _ => fail "AttributeError: bound is not a string")
+      | _ => fail "AttributeError: valid_addr_range is not a dict"
+
+/-- `_load_sections` -/
+def cfgSections (d : List (Y × Y)) : M (List Str) :=
+  match dictGet d "sections" with
+  | none => pure []
+  | some (.list l) =>
+    (match strList l with
+      | some ss => pure ss
+      | none => fail "sections must be a list of strings")
+  | some _ => fail "sections must be a list of strings"
+
 /-- `load_config`: writes over the *previous* state, in the order of the code; an exception leaves
 the keys written so far in place (first component) -/
 def loadConfig (cfg : Y) (s : Config) : Config × M Unit :=
   match cfg with
   | .dict d =>
-    match boolOpt d "mnemonics-full-match", boolOpt d "operands-full-match" with
-    | .ok m, .ok o =>
-      let s := { s with mnemFull := some m, opsFull := some o }
-      let style : Style := match dictGet d "style" with
-        | some (.str st) => if st = "intel".toList then .intel else .att
-        | _ => .att
-      let s := { s with style := some style }
-      let rng : M (Option AddrRange) :=
-        match dictGet d "valid_addr_range" with
-        | none => pure none
-        | some v =>
-          if !truthy v then pure none
-          else match v with
-            | .dict r =>
-              (match dictGet r "min", dictGet r "max" with
-                | some (.str lo), some (.str hi) => do
-                  let a ← hexVal lo
-                  let b ← hexVal hi
-                  pure (some ⟨a, b⟩)
-                | _, _ => fail "AttributeError: bound is not a string")
-            | _ => fail "AttributeError: valid_addr_range is not a dict"
-      match rng with
-      | .error e => (s, .error e)
+    match cfgFlags d with
+    | .error e => (s, .error e)
+    | .ok (m, o) =>
+      let s1 : Config := { s with mnemFull := some m, opsFull := some o, style := some (cfgStyle d) }
+      match cfgRange d with
+      | .error e => (s1, .error e)
       | .ok r =>
-        let s := { s with range := some r }
-        match dictGet d "sections" with
-        | none => ({ s with sections := some [] }, pure ())
-        | some (.list l) =>
-          (match strList l with
-            | some ss => ({ s with sections := some ss }, pure ())
-            | none => (s, fail "sections must be a list of strings"))
-        | some _ => (s, fail "sections must be a list of strings")
-    | .error e, _ => (s, .error e)
-    | _, .error e => (s, .error e)
+        let s2 : Config := { s1 with range := some r }
+        match cfgSections d with
+        | .error e => (s2, .error e)
+        | .ok ss => ({ s2 with sections := some ss }, .ok ())
   | _ => (s, fail "AttributeError: config is not a dict")
 
 /-- the flags as `allow_matching_substring` reads them while compiling -/
